@@ -64,7 +64,8 @@ pub fn run(run: &'static Run) {
         if rich { "" } else { " (backoff only for transactions whose expectations are all Any)" },
     ));
     run.assume("lock holders never release during the call (worst case for termination); single process, tmpfs scratch directory");
-    run.budget_secs(run.pick(35.0, 560.0));
+    run.budget_secs(run.pick(50.0, 560.0));
+    crate::c17r::reused(run, &fx);
 
     let split_lock_failures = AtomicU64::new(0);
     let deep_split_lock_failures = AtomicU64::new(0);
